@@ -79,6 +79,12 @@ func Setup(env *runner.Env) error {
 			Seeds = append(Seeds, Input{Name: v.name, Kind: "file-shrunk", Data: v.data})
 		}
 	}
+	// fragmented files with 1..3 sidx boxes at the top level in front of the first segment
+	for _, v := range topSidxSeeds() {
+		if len(v.data) <= MaxFileLen {
+			Seeds = append(Seeds, Input{Name: v.name, Kind: "file-shrunk", Data: v.data})
+		}
+	}
 	// whole hand-built files (several top-level boxes): handler-name shapes in progressive and
 	// fragmented files, encrypted fragments with sample-group boxes next to the senc
 	for _, f := range corpus.BuiltFiles() {
